@@ -144,6 +144,7 @@ def plan(prop, tier, seed):
         add(['chain3ev', 'reenter', 'nested', 'shortcut3'] if q else three, K=2, lazies=(True, False) if not q else (True,))
         add(['tb2', 'hyb2', 'evloop'], K=2 if q else 3, until='symnc', caches=(False,), lazies=(True, False))
         add(['hyb2_init', 'ev2_init2'], K=2, caches=(True,))
+        add(['async_in', 'async_out'], K=2, caches=(True,), masks='sync+one')
         add(['tworoutes', 'tworoutes_flat'], K=2, until=2, caches=(True,), masks='extremes', extra={'no_self': ['A', 'B', 'C', 'D']})
         add(['lazyroutes'], K=2, until=2, caches=(True,), masks='extremes', lazies=(True, False), extra={'no_self': ['A', 'B', 'C', 'D']})
         add(['weak4'], K=2, until=2, caches=(True,), lazies=(True, False), masks='extremes', extra={'no_self': ['P', 'Q', 'R', 'D']})
